@@ -152,6 +152,38 @@ def r14_1(prog, rep):
                      {"unit": u})
     if n < 3:
         rep.broken_("rule=R14.1 expected >=3 second-sinks, found %d" % n)
+    # width: the millisecond count of an echs_idiff_t is 64 bits wide; on its way to a seconds sink it is never parked in a narrower object
+    nw = 0
+    for f in list(prog.fns_in("echsx.c")) + list(prog.fns_in("echsd.c")):
+        if not f.cfg:
+            continue
+        for b, i, x, line in f.cfg.all_elems():
+            for l, kind, nn in writes(x):
+                rhs = nn.get("init") if kind == "decl" else (nn.get("r") if nn.get("k") == "bin" and nn["op"] == "=" else None)
+                if rhs is None:
+                    continue
+                rhs = f.cfg.resolve(rhs)
+                if not any(m.get("k") == "mem" and m["f"] == "d" and "idiff" in (m.get("rec") or "") for m in walk(rhs)) and not any(
+                        m.get("k") == "ref" and m.get("dk") == "local" for m in walk(rhs)):
+                    continue
+                if any(m.get("k") == "mem" and m["f"] == "ms" for m in walk(rhs)):
+                    continue
+                if unit_of(f, rhs) != "ms":
+                    continue
+                name = lv(l)
+                loc = [v for v in f.locals if v["n"] == name]
+                w = (loc[0].get("w") if loc else None) or strip_casts(l).get("w")
+                if w is None:
+                    continue
+                nw += 1
+                key = "%s/ms-carrier(%s)" % (f.name, name)
+                if w >= 64:
+                    rep.ok(rid, key, f.loc(nn.get("line", line)), "%s is %d bits wide" % (name, w))
+                else:
+                    rep.fail(rid, key, f.loc(nn.get("line", line)),
+                             "the 64-bit millisecond count (%s) is parked in the %d-bit object `%s` before it is converted to seconds: limits beyond "
+                             "2^31 ms (24.8 days) wrap, the request carries a negative or much too short DURATION" % (show(rhs)[:60], w, name))
+    rep.note(rid, "ms-carriers", "src/echsd.c", "%d objects holding a millisecond count examined for width" % nw)
 
 
 def r14_2(prog, rep):
